@@ -1,5 +1,89 @@
-"""placeholder - replaced below"""
+"""Address-key kinds: a dict keyed by the *raw YAML spelling* of an address ('(1, 0)', a str)
+must not be probed with an *evaluated* address ((1, 0), a tuple) - the probe can never hit."""
+import ast
+
+from sa.interp import C
+from . import loaderfacts
+from .gates import facts as gate_facts
+
+
+def host_firewall_producers(ctx):
+    """[(where, kinds, loc)] for every Host(..., firewall=X) construction"""
+    out = []
+    lf = loaderfacts.facts(ctx)
+    for ev in lf.host_news():
+        kw = dict(ev.data["kwargs"])
+        fw = kw.get("firewall")
+        if fw is None and len(ev.data["args"]) >= 5:
+            fw = ev.data["args"][4]
+        if fw is None:
+            out.append(("loader", {"OTHER"}, ev.loc, "firewall argument not found"))
+            continue
+        out.append(("loader", lf.dict_key_kinds(fw), ev.loc, lf.cn.show(fw)[:160]))
+    gen = ctx.repo.module("nasim.scenarios.generator")
+    for n in ast.walk(gen.tree):
+        if isinstance(n, ast.Call) and isinstance(n.func, ast.Name) and n.func.id == "Host":
+            for kw in n.keywords:
+                if kw.arg == "firewall":
+                    v = kw.value
+                    if (isinstance(v, ast.Dict) and not v.keys) or \
+                            (isinstance(v, ast.Call) and isinstance(v.func, ast.Name)
+                             and v.func.id == "dict" and not v.args and not v.keywords):
+                        out.append(("generator", {"EMPTY"}, f"{gen.path}:{n.lineno}", "{}"))
+                    else:
+                        out.append(("generator", {"OTHER"}, f"{gen.path}:{n.lineno}",
+                                    ast.unparse(v)))
+    return out
+
+
+def host_firewall_probe(ctx):
+    """kind of the key Host.traffic_permitted probes the deny list with, followed back from the
+    exploit dispatch to the keys of the scenario's host table"""
+    cf = gate_facts(ctx, "Exploit")
+    cn, d = cf.cn, cf.d
+    probes = []
+    for ev in d.summary.events:
+        if ev.kind == "mcall" and ev.data["name"] == "get" and ev.func.endswith("Host.traffic_permitted"):
+            probes.append(ev)
+    if not probes:
+        # direct subscript / membership forms
+        return None, "no .get(...) probe of Host.firewall found in the exploit dispatch"
+    ev = probes[0]
+    key = ev.data["args"][0]
+    ks = cn.show(key)
+    if ks != "each(scenario.address_space)":
+        return None, f"probe key is {ks}, not an element of the scenario's address space"
+    # Scenario.address_space = list(hosts.keys()); hosts = scenario_dict['host'] built by the loader
+    from . import envfacts
+    p = envfacts.prop_term(ctx, "nasim.scenarios.scenario", "Scenario", "address_space")
+    txt = [p.show(t) for _, t in p.returns]
+    if txt != ["list(self.scenario_dict['host'].keys())"]:
+        return None, f"Scenario.address_space is {txt}"
+    lf = loaderfacts.facts(ctx)
+    sd, _ = lf.scenario_dict()
+    if sd is None or sd[0] != "dictobj":
+        return None, "loader's scenario dict not found"
+    hosts = lf.ip.heap[sd[1]]["items"].get("host")
+    if hosts is None:
+        return None, "loader's scenario dict has no 'host' entry"
+    return lf.dict_key_kinds(hosts), f"keys of the host table: {lf.cn.show(hosts)[:120]}"
 
 
 def check_host_firewall_kinds(ctx, chk, rule):
-    pass
+    probe, why = host_firewall_probe(ctx)
+    if probe is None:
+        chk.undecided(rule, "per-host firewall: kind of the probing key", why,
+                      "nasim/scenarios/host.py")
+        return
+    for where, kinds, loc, desc in host_firewall_producers(ctx):
+        if kinds == {"EMPTY"}:
+            chk.ob(rule, f"{where}: Host.firewall is an empty dict (no keys)", True, "", loc,
+                   nontrivial=False)
+            continue
+        ok = kinds == probe
+        chk.ob(rule, f"{where}: keys of the per-host deny list have the kind they are probed with "
+               f"({'/'.join(sorted(probe))})", ok,
+               "" if ok else f"Host.firewall is {desc} with {'/'.join(sorted(kinds))} keys (RAW = "
+               f"the YAML spelling of an address, a str) but Host.traffic_permitted looks up "
+               f"{'/'.join(sorted(probe))} keys (evaluated (subnet, host) tuples): the deny list "
+               "can never match, so a per-host firewall written in the file is not enforced", loc)
